@@ -216,5 +216,205 @@ def deleteLines (ss : SScreen) (count : Option Nat) : SScreen :=
       buf := dlLoop n b (upTo s.cursor.y (b + 1)) ss.buf }
   else ss
 
+
+/-! ### draw -/
+
+/-- `buffer.entry(y).or_insert_with(HashMap::new)` without using the result -/
+def touchRow (y : Nat) (b : Buf) : Buf :=
+  match lookup y b with
+  | some _ => b
+  | none => insert y [] b
+
+/-- the wrap test at the head of the loop body (for a character that will be drawn) -/
+def wrapStage (ss : SScreen) (w : Nat) : SScreen :=
+  let s := ss.s
+  if s.cursor.x == s.columns then
+    if s.mode Gen.DECAWM then linefeed { ss with s := cariageReturn (markDirty s s.cursor.y) }
+    else { ss with s := setCursorX s (s.cursor.x - w) }
+  else ss
+
+def irmStage (ss : SScreen) (w : Nat) : SScreen :=
+  if ss.s.mode Gen.IRM then insertCharacters ss (some w) else ss
+
+/-- `line.insert(x, cell)` (and the placeholder of a double-width character), cursor advance -/
+def putChar (ss : SScreen) (c w : Nat) : SScreen :=
+  let s := ss.s
+  let row := rowOf ss.buf s.cursor.y
+  let row1 := insert s.cursor.x { data := [c], attr := s.cursor.attr } row
+  let row2 :=
+    if w == 2 && s.cursor.x + 1 < s.columns then insert (s.cursor.x + 1) { data := [], attr := s.cursor.attr } row1
+    else row1
+  { s := setCursorX s (min (s.cursor.x + w) s.columns), buf := insert s.cursor.y row2 ss.buf }
+
+/-- `line.entry(x).or_insert(default).data = nfc(data) + c` -/
+def combineAt (env : Env) (dflt : Cell) (y x c : Nat) (b : Buf) : Buf :=
+  let row := rowOf b y
+  let old := (lookup x row).getD dflt
+  insert y (insert x { old with data := env.NFC old.data ++ [c] } row) b
+
+def combine (env : Env) (ss : SScreen) (c : Nat) : SScreen :=
+  let s := ss.s
+  let b := touchRow s.cursor.y ss.buf
+  if s.cursor.x > 0 then
+    { ss with buf := combineAt env (defaultCell s) s.cursor.y (s.cursor.x - 1) c b }
+  else if s.cursor.y > 0 then
+    { s := markDirty s (s.cursor.y - 1), buf := combineAt env (defaultCell s) (s.cursor.y - 1) (s.columns - 1) c b }
+  else { ss with buf := b }
+
+def drawChar (env : Env) (ss : SScreen) (c : Nat) : SScreen :=
+  let w := env.W c
+  if w == 1 || w == 2 then putChar (irmStage (wrapStage ss w) w) c w
+  else if w == 0 && env.CM c then combine env ss c
+  else { ss with buf := touchRow ss.s.cursor.y ss.buf }
+
+/-- `draw(data)` -/
+def draw (env : Env) (ss : SScreen) (data : List Nat) : SScreen :=
+  let ss1 := (data.map (translate ss.s)).foldl (drawChar env) ss
+  { ss1 with s := markDirty ss1.s ss1.s.cursor.y }
+
+/-! ### alignment display, reverse video, resize, reset, display -/
+
+/-- `for x in xs { let c = line.entry(x).or_insert(default); c.data = "E" }` -/
+def alignRow (dflt : Cell) : List Nat → Row → Row
+  | [], line => line
+  | x :: xs, line => alignRow dflt xs (insert x { ((lookup x line).getD dflt) with data := [69] } line)
+
+def alignLoop (dflt : Cell) (columns : Nat) : List Nat → Buf → Buf
+  | [], b => b
+  | y :: ys, b => alignLoop dflt columns ys (insert y (alignRow dflt (upTo 0 columns) (rowOf b y)) b)
+
+/-- `alignment_display` -/
+def alignmentDisplay (ss : SScreen) : SScreen :=
+  let s := ss.s
+  { s := markAllDirty s, buf := alignLoop (defaultCell s) s.columns (upTo 0 s.lines) ss.buf }
+
+/-- `for line in buffer.values_mut() { for x in line.iter_mut() { x.1.reverse = v } }` -/
+def flipAll (v : Bool) (b : Buf) : Buf :=
+  b.map fun (y, row) => (y, row.map fun (x, c) => (x, { c with attr := { c.attr with reverse := v } }))
+
+/-- `for line in buffer.values_mut() { for x in columns..self.columns { line.remove(&x) } }` -/
+def cutColumns (c cols : Nat) (b : Buf) : Buf :=
+  b.map fun (y, row) => (y, row.filter fun (x, _) => !(c ≤ x && x < cols))
+
+/-- lift an operation that neither reads nor writes the buffer -/
+def lift (f : Screen → Screen) (ss : SScreen) : SScreen := { ss with s := f ss.s }
+
+/-- the `save_cursor; cursor_position(0, 0); delete_lines(lines - l); restore_cursor` block of `resize` -/
+def dropRowsFromTop (ss1 : SScreen) (l : Nat) : SScreen :=
+  lift restoreCursor
+    (deleteLines (lift (fun s => cursorPosition (saveCursor s) (some 0) (some 0)) ss1) (some (ss1.s.lines - l)))
+
+/-- `resize(lines, columns)` -/
+def resize (ss : SScreen) (lines columns : Option Nat) : SScreen :=
+  let l := lines.getD ss.s.lines
+  let c := columns.getD ss.s.columns
+  if l == ss.s.lines && c == ss.s.columns then ss
+  else
+    let ss1 : SScreen := lift (fun s => { s with margins := none }) ss
+    let ss2 := if l < ss1.s.lines then dropRowsFromTop ss1 l else ss1
+    let ss3 : SScreen := if c < ss2.s.columns then { ss2 with buf := cutColumns c ss2.s.columns ss2.buf } else ss2
+    lift (fun s3 =>
+      ensureVBounds (ensureHBounds (setMargins { s3 with lines := l, columns := c, dirty := fun d => d < l } none none)) false) ss3
+
+/-- `reset`: `buffer.clear()` and the re-initialisation of every other field (the dense `reset`) -/
+def reset (ss : SScreen) : SScreen := { s := Memterm.reset ss.s, buf := [] }
+
+/-- `line.entry(x).or_insert(default)` without using the result -/
+def orInsert (x : Nat) (dflt : Cell) (row : Row) : Row :=
+  match lookup x row with
+  | some _ => row
+  | none => insert x dflt row
+
+/-- the materialisation done by the `render` closure of `display()`: the cells it reads are
+    stored if they were absent (`entry(x).or_insert(default)`), the cell after a double-width
+    lead is skipped and therefore not materialised -/
+def renderRow (env : Env) (dflt : Cell) (columns : Nat) : Nat → Nat → Bool → Row → Row × List Nat
+  | 0, _, _, row => (row, [])
+  | fuel + 1, x, skip, row =>
+    if x < columns then
+      if skip then renderRow env dflt columns fuel (x + 1) false row
+      else
+        let row1 := orInsert x dflt row
+        let d := ((lookup x row).getD dflt).data
+        let r := renderRow env dflt columns fuel (x + 1) (wideText env.W d) row1
+        (r.1, d ++ r.2)
+    else (row, [])
+
+def displayLoop (env : Env) (dflt : Cell) (columns : Nat) : List Nat → Buf → Buf × List (List Nat)
+  | [], b => (b, [])
+  | y :: ys, b =>
+    let r := renderRow env dflt columns columns 0 false (rowOf b y)
+    let r2 := displayLoop env dflt columns ys (insert y r.1 b)
+    (r2.1, r.2 :: r2.2)
+
+/-- `display()`: the new (materialised) state and the rendering -/
+def display (env : Env) (ss : SScreen) : SScreen × List (List Nat) :=
+  let r := displayLoop env (defaultCell ss.s) ss.s.columns (upTo 0 ss.s.lines) ss.buf
+  ({ ss with buf := r.1 }, r.2)
+
+/-! ### modes (same order of the blocks as the dense model, see DESIGN.md section 3) -/
+
+def applySetModes (ss : SScreen) (ml : List Nat) : SScreen :=
+  if ml.contains Gen.DECSCNM then
+    { s := selectGraphicRendition (addModes (markAllDirty ss.s) ml) [7], buf := flipAll true ss.buf }
+  else lift (fun s => addModes s ml) ss
+
+def applyResetModes (ss : SScreen) (ml : List Nat) : SScreen :=
+  if ml.contains Gen.DECSCNM then
+    { s := selectGraphicRendition (removeModes (markAllDirty ss.s) ml) [27], buf := flipAll false ss.buf }
+  else lift (fun s => removeModes s ml) ss
+
+def colmSet (ss : SScreen) : SScreen :=
+  lift (fun s => cursorPosition s none none)
+    (eraseInDisplay (resize (lift (fun s => { s with savedColumns := some s.columns }) ss) none (some 132)) (some 2))
+
+def colmRestore (ss : SScreen) : SScreen :=
+  if ss.s.columns == 132 then
+    match ss.s.savedColumns with
+    | some sc => lift (fun s => { s with savedColumns := none }) (resize ss none (some sc))
+    | none => ss
+  else ss
+
+def colmReset (ss : SScreen) : SScreen :=
+  lift (fun s => cursorPosition s none none) (eraseInDisplay (colmRestore ss) (some 2))
+
+def setMode (ss : SScreen) (modes : List Nat) (priv : Bool) : SScreen :=
+  let ml := shiftModes modes priv
+  let ss1 := applySetModes ss ml
+  let ss2 := if ml.contains Gen.DECCOLM then colmSet ss1 else ss1
+  lift (fun s => hiddenIf (ml.contains Gen.DECTCEM) false (homeIf (ml.contains Gen.DECOM) s)) ss2
+
+def resetMode (ss : SScreen) (modes : List Nat) (priv : Bool) : SScreen :=
+  let ml := shiftModes modes priv
+  let ss1 := applyResetModes ss ml
+  let ss2 := if ml.contains Gen.DECCOLM then colmReset ss1 else ss1
+  lift (fun s => hiddenIf (ml.contains Gen.DECTCEM) true (homeIf (ml.contains Gen.DECOM) s)) ss2
+
+/-! ### one step -/
+
+/-- one operation on the sparse state (`display()` materialises, see `display`) -/
+def step (env : Env) (ss : SScreen) : Call → SScreen
+  | .alignmentDisplay => alignmentDisplay ss
+  | .reset => reset ss
+  | .index => index ss
+  | .linefeed => linefeed ss
+  | .reverseIndex => reverseIndex ss
+  | .draw t => draw env ss t
+  | .insertCharacters n => insertCharacters ss n
+  | .eraseInDisplay h => eraseInDisplay ss h
+  | .eraseInLine h => eraseInLine ss h
+  | .insertLines n => insertLines ss n
+  | .deleteLines n => deleteLines ss n
+  | .deleteCharacters n => deleteCharacters ss n
+  | .eraseCharacters n => eraseCharacters ss n
+  | .setMode ms p => setMode ss ms p
+  | .resetMode ms p => resetMode ss ms p
+  | .resize l c => resize ss l c
+  | .display => (display env ss).1
+  | c => lift (fun s => Memterm.step env s c) ss
+
+/-- `Screen::new(columns, lines)` -/
+def init (columns lines : Nat) : SScreen := { s := Memterm.init columns lines, buf := [] }
+
 end Sparse
 end Memterm
